@@ -1,0 +1,7 @@
+//go:build !verif
+
+package diodes
+
+// VerifAt marks an instrumentation point for the out-of-tree verification
+// harness. It is a no-op unless built with -tags verif.
+func VerifAt(point string, arg uint64) {}
